@@ -55,7 +55,7 @@ vj::Value run_case(const vj::Value& c)
 {
   const Index n = Index(c["n"].as_int());
   const std::string kind = c["kind"].as_str();
-  const double w = dy(c["w"]);
+  double w = dy(c["w"]);
   const Index m = Index(c["m"].as_int());
   const int p = int(c["p"].as_int());
   std::vector<std::vector<double>> A[2] = { dymat(c["A1"]), dymat(c["A2"]) };
@@ -125,6 +125,17 @@ vj::Value run_case(const vj::Value& c)
     else if(op == "DN") pre->done_numeric();
     else if(op == "DS") pre->done_symbolic();
     else if(op == "UP") set_values(1 - cur);
+    else if(op == "SO")
+    {
+      // set_omega on the kinds that offer it (no-op step for the others)
+      const double w2 = dy(steps[s]["w"]);
+      if(kind == "jacobi") dynamic_cast<Solver::JacobiPrecond<MatT, FilT>&>(*pre).set_omega(w2);
+      else if(kind == "sor") dynamic_cast<Solver::SORPrecond<MatT, FilT>&>(*pre).set_omega(w2);
+      else if(kind == "ssor") dynamic_cast<Solver::SSORPrecond<MatT, FilT>&>(*pre).set_omega(w2);
+      else if(kind == "poly") dynamic_cast<Solver::PolynomialPrecond<MatT, FilT>&>(*pre).set_omega(w2);
+      else if(kind == "scale") dynamic_cast<Solver::ScalePrecond<VecT, FilT>&>(*pre).set_omega(w2);
+      w = w2;
+    }
     else if(op == "AP")
     {
       ++napply;
